@@ -273,6 +273,11 @@ func TestFailedFrameLeavesNoTrace(t *testing.T) {
 		}
 		v := &asmb{}
 		fx := effects(t, v, uAddr(2), uAddr(3))
+		if mode == "none" {
+			// the control frame gets one effect that is visible whatever the drawn ones do (pre-state slots hold 1..200)
+			v.pu(0xEE).pu(5).o(0x55)
+			fx = append(fx, "sstore(5,238)")
+		}
 		failure(t, v, mode)
 		victim := v.code
 		w.MainSrc = "directed-failed-frame"
